@@ -230,6 +230,24 @@ def eval_chunk(item):
         results[name] = vals
         out['per_status'][name] = dict(runs=runs.close(len(pts)), first=first, last=last, npoints=len(pts),
                                        distinct=distinct, samples=samples, rows_ok=len(rows_ok))
+    # second pass in the other loop order (amount outer, status inner): the answer must not depend on what was asked before
+    sts = list(statuses(year))
+    firstpass = {st.name: dict(results[st.name]) for st in sts}
+    common = None
+    for st in sts:
+        xs = set(firstpass[st.name])
+        common = xs if common is None else (common & xs)
+    hist = Runs()
+    cpts = sorted(common or ())
+    for idx, x in enumerate(cpts):
+        for st in sts:
+            got, err = call(year, st, x)
+            out['calls'] += 1
+            want = firstpass[st.name][x]
+            if err is None and want is not None and got != want:
+                hist.point(idx, 'call-history-dependent', x, f'figure_tax({x}, {st.name}) for {year} = {got} right after another status was asked for the same amount, {want} in a status-by-status sweep')
+    out['per_status'].setdefault(sts[0].name, {}).setdefault('runs', [])
+    out['per_status'][sts[0].name]['runs'] = list(out['per_status'][sts[0].name]['runs']) + hist.close(len(cpts))
     # surviving spouse == joint, point by point (same enumeration for both: neither is Single)
     if surv is not None:
         a, b = results[joint], results[surv]
